@@ -718,6 +718,9 @@ theorem table_no_lock_leak : lockLeaks.map (·.1) = ["TrieDatabase.Lock"] := by 
     check and update share a section) -/
 theorem table_no_check_then_act_split : rmwSplits = [] := rfl
 
+/-- no goroutine started in a loop reads the loop's shared variable (fact `loopvar`, scanned on every run) -/
+theorem table_no_loopvar_capture : loopvarCaptures = [] := rfl
+
 set_option maxRecDepth 16000 in
 /-- **table_head_decisions** (the premise of `cta_no_stale_decision` on the code): inside `MineBlock`, `InsertBlock`
     and `InsertConfirms` every call that reads the fork head or the stable head — directly or through its callees —
